@@ -16,6 +16,7 @@ package c19
 // transition upload comes BEFORE the master's (the outcome legitimately depends on that subset only).
 
 import (
+	"bytes"
 	"encoding/binary"
 	"encoding/json"
 	"fmt"
@@ -25,9 +26,11 @@ import (
 	"path/filepath"
 	"sort"
 	"sync"
+	"sync/atomic"
 	"time"
 
 	app "github.com/Dash-Industry-Forum/livesim2/cmd/cmaf-ingest-receiver/app"
+	"github.com/Eyevinn/mp4ff/mp4"
 
 	"verifharness/tr"
 )
@@ -460,12 +463,76 @@ func (d *driver) rounds(sc *scenario, nRounds int) error {
 
 // ---------------------------------------------------------------------------------------------- burst
 
-// burstScenario: one or two channels with many tracks that fall into few AdaptationSets (several video tracks,
-// several audio tracks of one language, text tracks), channel-unique track names.
+// chunkify re-packs a one-fragment media segment into n fragments (chunks) of the same segment.
+func chunkify(initRaw, segRaw []byte, n int) ([]byte, error) {
+	fi, err := mp4.DecodeFile(bytes.NewReader(initRaw))
+	if err != nil || fi.Init == nil || fi.Init.Moov.Mvex == nil {
+		return nil, fmt.Errorf("chunkify: init: %v", err)
+	}
+	fm, err := mp4.DecodeFile(bytes.NewReader(segRaw))
+	if err != nil || len(fm.Segments) != 1 || len(fm.Segments[0].Fragments) != 1 {
+		return nil, fmt.Errorf("chunkify: media: %v", err)
+	}
+	frag := fm.Segments[0].Fragments[0]
+	samples, err := frag.GetFullSamples(fi.Init.Moov.Mvex.Trex)
+	if err != nil {
+		return nil, err
+	}
+	if n > len(samples) {
+		n = len(samples)
+	}
+	seg := mp4.NewMediaSegment()
+	for c := 0; c < n; c++ {
+		fr, err := mp4.CreateFragment(frag.Moof.Mfhd.SequenceNumber, frag.Moof.Traf.Tfhd.TrackID)
+		if err != nil {
+			return nil, err
+		}
+		for i := c * len(samples) / n; i < (c+1)*len(samples)/n; i++ {
+			fr.AddFullSample(samples[i])
+		}
+		seg.AddFragment(fr)
+	}
+	var buf bytes.Buffer
+	if err := seg.Encode(&buf); err != nil {
+		return nil, err
+	}
+	return buf.Bytes(), nil
+}
+
+// mkTrackN: like mkTrack with nseg segments, incoming numbers k + startNr, and `chunks` fragments per segment.
+func mkTrackN(assets map[string]*asset, ch, name, mt, lang string, nseg, startNr, chunks int) *track {
+	a := assets[mt]
+	// with a configured startNr the receiver stores the segment under (and with) the outgoing number: re-encoded
+	t := &track{Ch: ch, Tr: name, Mt: mt, Ext: a.ext, Lang: lang, init: prepInit(a.init, lang), inexact: startNr != 0}
+	for k := 0; k < nseg; k++ {
+		raw := patchTimes(a.segs[k%len(a.segs)], uint32(k+startNr), uint64(k)*2*tsOf[mt], fmt.Sprintf("%s/%s/%d", ch, name, k))
+		if chunks > 1 {
+			c, err := chunkify(t.init, raw, chunks)
+			if err != nil {
+				panic(err)
+			}
+			raw = c
+		}
+		t.segs = append(t.segs, raw)
+	}
+	return t
+}
+
+// burstScenario: one or two CONFIGURED channels with many tracks that fall into few AdaptationSets (several video
+// tracks, several audio tracks of one language, text tracks), channel-unique track names; credentials (default or
+// per channel), startNr 1 (the uploads then carry number k+1), per-representation language / role / label, some
+// tracks whose init segment is already on disk (their first upload is a media segment), and "intruder" tracks
+// whose uploads carry wrong or no credentials (every sequential order refuses them with 401).
 func (d *driver) burstScenario(seed int64, idx int) *scenario {
 	rng := rand.New(rand.NewSource(seed*15485863 + int64(idx)))
-	sc := &scenario{kind: "burst", auth: []string{"none", "default"}[rng.Intn(2)], repcfg: rng.Intn(3) == 0,
-		clHeader: rng.Intn(2) == 0, newest: map[string]int{}}
+	sc := &scenario{kind: "burst", auth: []string{"default", "channel", "channel", "none"}[rng.Intn(4)], repcfg: rng.Intn(3) == 0,
+		clHeader: rng.Intn(2) == 0, newest: map[string]int{}, startNr: rng.Intn(2), langcfg: rng.Intn(2) == 0}
+	if sc.auth != "none" || sc.startNr != 0 || sc.langcfg {
+		sc.padcfg = []int{1500, 3000}[rng.Intn(2)]
+	}
+	if idx%3 == 0 { // always some fully configured ones, in a large configuration
+		sc.auth, sc.startNr, sc.langcfg, sc.padcfg = "channel", 1, true, 3000
+	}
 	nch := 1 + rng.Intn(2)
 	for c := 0; c < nch; c++ {
 		ch := fmt.Sprintf("bch%d", c+1)
@@ -475,17 +542,47 @@ func (d *driver) burstScenario(seed int64, idx int) *scenario {
 		if nch == 2 {
 			nv, na, nt = 2+rng.Intn(2), 1+rng.Intn(2), rng.Intn(2)
 		}
+		add := func(name, mt, lang string) *track {
+			t := mkTrackN(d.assets, ch, ch+"_"+name, mt, lang, 3, sc.startNr, 1)
+			t.preload = rng.Intn(4) == 0 || (idx%3 == 0 && rng.Intn(3) != 0)
+			sc.tracks = append(sc.tracks, t)
+			return t
+		}
 		for i := 0; i < nv; i++ {
-			sc.tracks = append(sc.tracks, mkTrack(d.assets, ch, fmt.Sprintf("%s_v%d", ch, i+1), "video", ""))
+			add(fmt.Sprintf("v%d", i+1), "video", "")
 		}
 		for i := 0; i < na; i++ {
-			sc.tracks = append(sc.tracks, mkTrack(d.assets, ch, fmt.Sprintf("%s_a%d", ch, i+1), "audio", "swe"))
+			add(fmt.Sprintf("a%d", i+1), "audio", "swe")
 		}
 		for i := 0; i < nt; i++ {
-			sc.tracks = append(sc.tracks, mkTrack(d.assets, ch, fmt.Sprintf("%s_s%d", ch, i+1), "text", ""))
+			add(fmt.Sprintf("s%d", i+1), "text", "")
+		}
+		if sc.auth != "none" {
+			for i, cred := range []string{"wrong", "none"} {
+				t := add(fmt.Sprintf("x%d", i+1), []string{"video", "audio"}[i], "")
+				t.cred = cred
+			}
 		}
 	}
 	rng.Shuffle(len(sc.tracks), func(i, j int) { sc.tracks[i], sc.tracks[j] = sc.tracks[j], sc.tracks[i] })
+	return sc
+}
+
+// liveScenario: one channel with 8..12 tracks whose segments come in several chunks.
+func (d *driver) liveScenario(seed int64, idx int, nRounds int) *scenario {
+	rng := rand.New(rand.NewSource(seed*32452843 + int64(idx)))
+	sc := &scenario{kind: "live", auth: "none", clHeader: rng.Intn(2) == 0, newest: map[string]int{"lch": nRounds - 1}, chans: []string{"lch"},
+		variant: fmt.Sprintf("r%d", nRounds)}
+	n := 8 + rng.Intn(5)
+	chunks := 2 + rng.Intn(3)
+	for i := 0; i < n; i++ {
+		mt := "video"
+		if i > 0 && rng.Intn(2) == 0 {
+			mt = "audio"
+		}
+		sc.tracks = append(sc.tracks, mkTrackN(d.assets, "lch", fmt.Sprintf("l%s%d", mt[:1], i+1), mt, "", nRounds, 0, chunks))
+	}
+	sc.variant += fmt.Sprintf("-n%d-c%d", n, chunks)
 	return sc
 }
 
@@ -493,7 +590,13 @@ func (d *driver) burstScenario(seed int64, idx int) *scenario {
 // the gate `gate` (add: between the GetChannel miss and AddChannel; reg: before the registration of the track in
 // the channel and its MPD), then all are released at once; the first media uploads are held at trdatas_r likewise.
 func (d *driver) burst(sc *scenario, gate string, rep int) error {
-	sc.variant = gate
+	if sc.kind == "burst" {
+		sc.variant = gate
+	}
+	nseg := 0
+	for _, t := range sc.tracks {
+		nseg = max(nseg, len(t.segs))
+	}
 	if err := d.header(sc, tr.E{"gate": gate, "rep": rep}); err != nil {
 		return err
 	}
@@ -508,46 +611,117 @@ func (d *driver) burst(sc *scenario, gate string, rep int) error {
 	}
 	curEngine.Store(e)
 	agree := "na"
-	phase := func(k int, g string) {
+	intruder := func(t *track) bool { return t.cred != "" && sc.auth != "none" }
+	var intrRes []upRes
+	var intrMu sync.Mutex
+	// phase: the uploads `what` (track -> segment index, -2 = none) are started with gate g armed; when every one of
+	// them stands at the gate (or has been answered) all are released at once.
+	phase := func(what func(t *track) int, gateOf func(t *track) string) {
+		if r.dead.Load() {
+			return
+		}
+		var in []*track
 		for _, t := range sc.tracks {
-			e.start(e.hs[t.Tr], k, g)
+			k := what(t)
+			if k == -2 || intruder(t) {
+				continue
+			}
+			in = append(in, t)
+			e.start(e.hs[t.Tr], k, gateOf(t))
 		}
 		held := []*hstate{}
-		for _, t := range sc.tracks {
+		for _, t := range in {
 			h := e.hs[t.Tr]
 			select {
 			case at := <-h.settle:
 				if at != "done" {
 					held = append(held, h)
 				}
-			case <-time.After(15 * time.Second):
-				agree = "aborted: upload neither finished nor reached gate " + g
+			case <-time.After(answerBound + 5*time.Second):
+				agree = "aborted: upload neither finished nor reached its gate"
+			}
+		}
+		// uploads with wrong / no credentials are not gate-controlled (they are refused before the first gate when
+		// the channel does not exist yet): each intruder repeats its upload while the held handlers are released
+		var iwg sync.WaitGroup
+		var stop atomic.Bool
+		for _, t := range sc.tracks {
+			if k := what(t); k != -2 && intruder(t) {
+				iwg.Add(1)
+				go func() {
+					defer iwg.Done()
+					for i := 0; i < 1500 && (i < 20 || !stop.Load()); i++ {
+						u := r.upload(t, k)
+						if i < 2 || u.status != 401 { // the trace keeps the first answers and every unexpected one
+							intrMu.Lock()
+							intrRes = append(intrRes, u)
+							intrMu.Unlock()
+						}
+					}
+				}()
+			}
+		}
+		for i, h := range held {
+			app.VerifReleaseGate(gateOf(h.t) + ":" + h.t.Tr)
+			if sc.kind == "live" && i%3 == 2 {
+				time.Sleep(200 * time.Microsecond) // staggered release
 			}
 		}
 		for _, h := range held {
-			app.VerifReleaseGate(g + ":" + h.t.Tr)
-		}
-		for _, h := range held {
-			<-h.settle
+			select {
+			case <-h.settle:
+			case <-time.After(answerBound + 5*time.Second):
+			}
 		}
 		e.wg.Wait()
+		stop.Store(true)
+		iwg.Wait()
 		for _, t := range sc.tracks {
-			app.VerifReleaseGate(g + ":" + t.Tr) // disarm gates that were not reached
+			app.VerifReleaseGate(gateOf(t) + ":" + t.Tr) // disarm gates that were not reached
 		}
 	}
-	phase(-1, gate)
-	phase(0, "trdatas_r")
+	// first uploads: the init segment, or media segment 0 for a track whose init segment is on disk. A media-first
+	// upload is held at `add` only (the registration from disk runs inside the stream table's critical section).
+	phase(func(t *track) int {
+		if t.preload {
+			return 0
+		}
+		return -1
+	}, func(t *track) string {
+		if t.preload {
+			return "add"
+		}
+		return gate
+	})
+	if sc.kind == "live" {
+		// every round: all handlers held inside the chunk callback (before the track table lookup), released staggered
+		for k := 0; k < nseg; k++ {
+			phase(func(*track) int { return k }, func(*track) string { return "trdatas_r" })
+		}
+	} else {
+		phase(func(t *track) int {
+			if t.preload {
+				return -2
+			}
+			return 0
+		}, func(*track) string { return "trdatas_r" })
+	}
+	for _, u := range intrRes {
+		r.emitUp(u)
+	}
 	curEngine.Store(nil)
 	nOK := int64(0)
 	for _, t := range sc.tracks {
+		e.hs[t.Tr].mu.Lock()
 		for _, u := range e.hs[t.Tr].res {
 			r.emitUp(u)
 			if u.k >= 0 && u.status == 200 {
 				nOK++
 			}
 		}
+		e.hs[t.Tr].mu.Unlock()
 	}
-	for k := 1; k < 3; k++ {
+	for k := 1; k < nseg && sc.kind != "live"; k++ {
 		res := make([]upRes, len(sc.tracks))
 		var wg sync.WaitGroup
 		for i, t := range sc.tracks {
